@@ -230,6 +230,19 @@ func (w *World) writeSet(fn *ssa.Function, g *Gen) *WriteSet {
 		}
 	}
 	freshScope = savedScope
+	// the ghost updates the function's own contract declares (`sets`) are writes of the function: a caller that
+	// havocs the default frame must havoc them too (otherwise the update contradicts "unchanged")
+	if ct := w.specs.Contracts[canonKey(funcKey(fn))]; ct != nil {
+		for _, sd := range ct.Sets {
+			names, all := w.designatorVars(sd.Target, fn, ct)
+			if all {
+				ws.All, ws.Why = true, "sets "+sd.Target
+			}
+			for n, srt := range names {
+				ws.add(n, srt)
+			}
+		}
+	}
 	delete(w.wsBusy, fn)
 	w.wsMemo[fn] = ws
 	return ws
